@@ -218,6 +218,8 @@ class C13(Prop):
             yield mk('c13.hist', '|'.join(H.gen_pub_history(rng, mat)), tag='hist-pubkeys')
         for _ in range(10 if big else 2):
             yield mk('c13.hist', '|'.join(H.gen_chain_history(rng, mat)), tag='hist-chains')
+        for _ in range(30 if big else 3):
+            yield mk('c13.hist', '|'.join(H.gen_eckey_history(rng, mat)), tag='hist-eckey')
         nkeys = 6000 if big else 300
         secs = secrets(crng, nkeys)                                   # same list in every shard
         mine = [(j, s) for j, s in enumerate(secs) if j % nshards == shard]
